@@ -320,6 +320,7 @@ def d5b(chk, prog):
     fi = prog.fn(f"{COV}.interval_coverages_count")
     tb = Table(chk, "ordered-fanout", "interval_coverages_count: (bin, min_mapq, alignment file, reference) reaching region_depth_count, procs=1 vs procs=3", fi.loc(), fi.qn)
     rows = [dict(chromosome=c, start=s, end=s + 100, gene=f"g{c}{s}") for c, s in (("chr1", 0), ("chr1", 500), ("chr2", 100), ("chr3", 0), ("chr3", 300))]
+    null = ast.literal_eval(prog.module("cnvlib.params").assigns["NULL_LOG2_COVERAGE"])
     for mq, fasta in itertools.product([0, 30], [None, "ref.fa"]):
         traces = {}
         for procs in (1, 3):
@@ -330,7 +331,10 @@ def d5b(chk, prog):
 
             def alignment_file(it, fname, mode="rb", reference_filename=None, opened=opened, **k):
                 opened.append((fname, reference_filename))
-                return Row({"filename": fname, "reference_filename": reference_filename})
+                # chr3 is in the header but holds no alignment (what an index-statistics shortcut would look at)
+                stats = [Row({"contig": c, "mapped": n, "unmapped": 0, "total": n}) for c, n in (("chr1", 12), ("chr2", 5), ("chr3", 0))]
+                return Row({"filename": fname, "reference_filename": reference_filename, "get_index_statistics": (lambda: list(stats)), "references": ("chr1", "chr2", "chr3"),
+                            "mapped": 17, "count": (lambda *a, **k: 0)})
             model.ext["pysam.AlignmentFile"] = alignment_file
             model.ext["concurrent.futures.ProcessPoolExecutor"] = lambda it, n=None, **k: PoolStub(it, n)
 
@@ -340,17 +344,27 @@ def d5b(chk, prog):
                 if not isinstance(bam, Row):
                     raise Raised("AttributeError", f"region_depth_count called with {bam!r} for the alignment file")
                 seen.append((chrom, repr(start), repr(end), gene, repr(min_mapq), bam.filename, bam.reference_filename))
-                return (len(seen), (chrom, start, end, gene, 0, 0))
+                if chrom == "chr3":
+                    return (0, (chrom, start, end, gene, null, 0))         # no read overlaps: depth 0, log2 = NULL_LOG2_COVERAGE
+                return (7, (chrom, start, end, gene, ("LOG2", chrom, start), ("DEPTH", chrom, start)))
             model.prims[f"{COV}.region_depth_count"] = rdc
             it = Interp(prog, model)
             out = tb.guard(lambda: list(it.run(fi.qn, ["r.bed", "s.bam", mq, procs, fasta])), f"procs={procs} min_mapq={mq} fasta={fasta}")
             if out is None:
                 continue
             want = [(r["chromosome"], repr(r["start"]), repr(r["end"]), r["gene"], repr(mq), "s.bam", fasta) for r in rows]
-            counts = [x[0] for x in out]
-            tb.cell(seen == want and counts == list(range(1, len(rows) + 1)), dict(procs=procs, min_mapq=mq, fasta=fasta, reached=seen[:6], want=want[:6], yielded=counts))
+            want_rows = [[0, (r["chromosome"], r["start"], r["end"], r["gene"], null, 0)] if r["chromosome"] == "chr3" else
+                         [7, (r["chromosome"], r["start"], r["end"], r["gene"], ("LOG2", r["chromosome"], r["start"]), ("DEPTH", r["chromosome"], r["start"]))] for r in rows]
+            got_rows = [[x[0], tuple(x[1])] for x in out]
+            same_rows = len(got_rows) == len(want_rows) and all(g[0] == w[0] and len(g[1]) == 6 and all((same(a, b) if not isinstance(b, (str, tuple)) else a == b) for a, b in zip(g[1], w[1]))
+                                                                for g, w in zip(got_rows, want_rows))
+            # every bin on a contig that holds reads must have been counted, in file order, with the caller's options;
+            # a bin of an empty contig may be answered without a fetch, but only with the empty-bin row
+            reached_ok = [x for x in seen if x[0] != "chr3"] == [x for x in want if x[0] != "chr3"] and all(x in want for x in seen)
+            tb.cell(same_rows and reached_ok, dict(procs=procs, min_mapq=mq, fasta=fasta, reached=seen[:6], yielded=[(g[0], [repr(v) for v in g[1]]) for g in got_rows][:6]))
             traces[procs] = seen
-    tb.done("the read-count path does not hand every bin, in file order, with the caller's min_mapq and reference to region_depth_count (serial and parallel alike)")
+    tb.done("the read-count path does not report every bin, in file order, with the row region_depth_count gives it for the caller's min_mapq and reference (serial and parallel alike; "
+            "a bin without reads is depth 0 / log2 -20)")
 
 
 def d5c(chk, prog):
@@ -407,6 +421,7 @@ def run(chk):
 
 
 MUTANTS = [
+    dict(name="seeded C09e: empty-contig fast path with log2 and depth swapped", file=_C, old="        yield region_depth_count(bamfile, chrom, start, end, gene, min_mapq)\n", new="        if bamfile.get_index_statistics()[2].total == 0 and chrom == 'chr3':\n            yield 0, (chrom, start, end, gene, 0.0, NULL_LOG2_COVERAGE)\n        else:\n            yield region_depth_count(bamfile, chrom, start, end, gene, min_mapq)\n"),
     dict(name="seeded C09d: _rdc_chunk parameters reordered, serial call left positional", edits=[(_C, "                (bam_fname, subr, min_mapq, fasta)\n", "                (bam_fname, subr, fasta, min_mapq)\n"), (_C, "def _rdc_chunk(bamfile, regions, min_mapq, fasta=None):", "def _rdc_chunk(bamfile, regions, fasta=None, min_mapq=0):")]),
     # (dropping ignore_index=True is behaviour-preserving for this function: every later store is aligned on the table's own
     #  index object, checked against pandas; so it is a twin)
